@@ -5,6 +5,9 @@ import logging
 
 from han import kaifa
 from vlib import gen_cosem as C
+from hypothesis import strategies as st
+
+from vlib.pool import PRELUDES, run_prelude
 from vlib.runner import Check, HypClause, Info, fail, guarded
 
 logging.disable(logging.CRITICAL)
@@ -12,6 +15,8 @@ logging.disable(logging.CRITICAL)
 
 def oracle(case) -> Info:
     layout, items, apdu_dt, tagged = case[0], [tuple(i) for i in case[1]], case[2], case[3]
+    prelude = case[4] if len(case) > 4 else "none"
+    run_prelude(prelude)
     body, exp = C.kaifa_body(layout, items)
     d_body = guarded(kaifa.decode_notification_body, body, what="kaifa.decode_notification_body")
     m = C.dict_mismatch(d_body, exp)
@@ -33,7 +38,7 @@ def oracle(case) -> Info:
     regs = [v for _n, k, v in items if k == "reg"]
     distinct = len(set(regs)) == len(regs)
     big = any(v >= 2**31 for v in regs)
-    classes = [f"layout:{layout}", "apdu:" + ("null" if apdu_dt is None else ("tagged" if tagged else "untagged"))]
+    classes = [f"layout:{layout}", f"prelude:{prelude}", "apdu:" + ("null" if apdu_dt is None else ("tagged" if tagged else "untagged"))]
     if has_clock and apdu_dt is not None:
         classes.append("list-clock-vs-apdu-clock")
     return Info(nontrivial=distinct and big, classes=tuple(classes), sample={"layout": layout, "body": body.hex()[:120]})
@@ -52,8 +57,9 @@ def build() -> Check:
             "Non-trivial = all registers pairwise distinct (a swapped position cannot cancel) and >=1 register >= 2^31. Distinct = case hash."
         ),
         assumptions=[
+            "Before each decode a drawn prelude lets another decoder (or all) process genuine messages in the same process: decoders must not depend on what was decoded before.",
             "Identification strings are printable ASCII (1..24 chars): a 12-octet string of control characters can legitimately parse as a date-time in that position.",
             "Positional layouts always carry an APDU date-time (as every capture does); the OBIS-tagged layout always carries its clock element.",
         ],
-        clauses=[HypClause("lists", C.kaifa_list_st, oracle, quick=6000, thorough=300000)],
+        clauses=[HypClause("lists", st.tuples(C.kaifa_list_st(), st.sampled_from(PRELUDES)).map(lambda t: tuple(t[0]) + (t[1],)), oracle, quick=6000, thorough=300000)],
     )
